@@ -13,7 +13,8 @@
                this property; before it the order of the client's environment
                entered the key), the preprocessor output digest.
                NOT hashed: `-o` (EXCEPT for objects instrumented for coverage /
-               profiling, whose absolute output path is an extra hashed argument),
+               profiling, whose absolute output path is an extra hashed argument,
+               and with -gsplit-dwarf, where the .dwo name derived from it is),
                dependency / preprocessor-only arguments (they act through the
                preprocessor output), every other variable, cwd.
        rustc : compiler (shlib digests + version), the arguments other than
@@ -60,6 +61,8 @@ Inductive arg :=
 | AHashed (a : bytes)                 (* enters the key in command-line order *)
 | AProfile (a : bytes)                (* hashed like AHashed, and instruments the object for coverage / profiling
                                          (--coverage, -ftest-coverage, -fprofile-generate): `profile_generate` *)
+| ASplitDwarf (a : bytes)             (* hashed like AHashed; -gsplit-dwarf: the name of the .dwo file (derived from -o)
+                                         is recorded in the object, parse_arguments adds -D_gsplit_dwarf_path=<dwo> *)
 | ACfg (v : bytes)                    (* rustc --cfg v *)
 | AExtern (path : bytes) (digest : N) (* rustc --extern name=path, with the digest of that file *)
 | ALinkPath (p : bytes)               (* rustc -L p *)
@@ -134,6 +137,7 @@ Fixpoint hashed_args (l : list arg) : list bytes :=
   | [] => []
   | AHashed a :: r => a :: hashed_args r
   | AProfile a :: r => a :: hashed_args r
+  | ASplitDwarf a :: r => a :: hashed_args r
   | _ :: r => hashed_args r
   end.
 
@@ -156,7 +160,21 @@ Definition cfg_flag : bytes := bs "--cfg".
 Definition has_profile (l : list arg) : bool :=
   existsb (fun a => match a with AProfile _ => true | _ => false end) l.
 
+Definition has_split (l : list arg) : bool :=
+  existsb (fun a => match a with ASplitDwarf _ => true | _ => false end) l.
+
 Definition obj_role : bytes := bs "obj".
+Definition dwo_role : bytes := bs "dwo".
+
+(* gcc.rs parse_arguments: `-D_gsplit_dwarf_path=<output with extension dwo>` is pushed to the common (hashed)
+   arguments when -gsplit-dwarf is given; the same path is the "dwo" output of the request *)
+Definition split_out (r : request) : list bytes :=
+  if has_split (rq_args r) then
+    match find (fun o => bytes_eqb (o_role o) dwo_role) (rq_outputs r) with
+    | Some o => [bs "-D_gsplit_dwarf_path=" ++ o_path o]
+    | None => []
+    end
+  else [].
 
 (* c.rs generate_hash_key, `profile_output_path`: an object instrumented for coverage / profiling embeds the
    location of its .gcda/.gcno files, which the compiler derives from the output path; for such a request
@@ -174,7 +192,7 @@ Definition fingerprint_of (r : request) : fingerprint :=
   | LangC =>
       {| fp_lang := LangC;
          fp_compiler := rq_compiler r;
-         fp_args := hashed_args (rq_args r) ++ profile_out r;
+         fp_args := hashed_args (rq_args r) ++ split_out r ++ profile_out r;
          fp_env := isort pair_leb (filter (fun e => c_env_hashed (fst e)) (rq_env r));
          fp_cwd := None;
          fp_inputs := rq_inputs r |}
